@@ -373,16 +373,12 @@ func GenOdd(r *core.PRNG) string {
 	case 18:
 		// compound assignment on an index target whose index contains a function literal doing the same
 		d := 1 + r.Intn(6)
-		if r.Chance(1, 300) {
-			d = 20 // compiles for about a minute
-		}
+		// (the deep instance that never finishes is the canonical unit 0: a listed known finding)
 		return "a := []int{0, 0}; " + NestedOpAssign(d)
 	case 19:
 		// struct type whose field names share one nested type; dumped with WithTreeDump
 		d := 1 + r.Intn(8)
-		if r.Chance(1, 300) {
-			d = 25 // its tree dump is half a gigabyte and takes most of a minute
-		}
+		// (the deep instance is the canonical unit 1: a listed known finding)
 		return SharedStructType(d)
 	case 16:
 		return core.Pick(r, []string{"import ( x \"\\400\" )", "import ( x \"\\ud800\" )", "import \"\\400\"", "import ( \"fmt\" x )", "import ( x )", "import x", "import ( x \"fmt\" \"strings\" y )", "import ( . \"fmt\" )", "import ( _ \"fmt\" )", "import ()", "import \"\"", "import ( x \"\" ); x.y", "import ( fmt \"strings\" ); fmt.Repeat(\"a\", 2)", "import \"fmt\"; import \"fmt\"; fmt.Println(1)", "import ( a \"x/../y\" )", "import `raw`", "import ( x `ra\\400w` )", "import 'c'", "import 5"})
